@@ -146,6 +146,11 @@ type stats struct {
 func main() {
 	log.SetOutput(io.Discard)
 	log.SetLevel(log.PanicLevel)
+	if os.Getenv("VERIF_LOG") == "trace" {
+		// configuration variant "-vvv": every log statement formats its arguments (String methods of the wrappers run,
+		// also on the error paths); the text is thrown away
+		log.SetLevel(log.TraceLevel)
+	}
 	if len(os.Args) < 3 {
 		fmt.Fprintln(os.Stderr, "usage: harness <component> gen|replay ...")
 		os.Exit(2)
